@@ -101,9 +101,10 @@ CHECKS['C05'] = {
 CHECKS['C01'] = {
     'engine': 'V',
     'technique': 'Verus contract on the HLSL operator exporter: same-named operator, operands in source order (sub-expression export uninterpreted)',
-    'level_text': 'Unbounded deductive proof (Verus) on the verbatim text of generate_intrinsic_op: for each of the 37 operator kinds the emitted node is the same-named unary / binary syntax operator '
-                  'applied to the syntax exported from operand 0 (and operand 1, in that order); arity asserts and the unreachable panic are discharged.',
-    'level_note': 'Partial and node-local: ONE node kind of the exporter. The statement as a whole (bit-identical results of source and emitted program) needs formal semantics of RSSL and HLSL and a proof through '
+    'level_text': 'Unbounded deductive proof (Verus) on the verbatim text of generate_intrinsic_op and generate_literal: for each of the 37 operator kinds the emitted node is the same-named unary / binary syntax operator '
+                  'applied to the syntax exported from operand 0 (and operand 1, in that order); every non-enum constant is emitted as a literal of the same value and kind (negative int / untyped values as a negated untyped literal, '
+                  'INT_MIN and -(2^64-1) included); arity asserts and the unreachable panics are discharged.',
+    'level_note': 'Partial and node-local: TWO node kinds of the exporter (operators, literals). The statement as a whole (bit-identical results of source and emitted program) needs formal semantics of RSSL and HLSL and a proof through '
                   'exporter + formatter and is not decided: statements, calls, casts, swizzles, parenthesisation (formatter), literal printing are outside this check. '
                   'Assumed: generate_expression relates its output to its input (uninterpreted `exported_from`). Preconditions: the operator is not one of the five internal helper operations; arity matches.',
 }
